@@ -600,6 +600,20 @@ def gen_screen(rng, style=None, all_observed=False, arity=None, n_treat=None):
     return dict(rows=rows, arity=arity, ctrl=ctrl, obs_given=True, mask_given=True, tmap=None, smap=None)
 
 
+def smoother_params(rng, sd):
+    """random parameters, biased to the boundaries of the screen at hand (plate sizes, sums of the two smallest plates)"""
+    sizes = Counter(r["p"] for r in sd["rows"] if not r["m"])
+    szs = sorted(sizes.values()) or [1]
+    by_sample = {}
+    for pl, n in sizes.items():
+        by_sample.setdefault(next(r["s"] for r in sd["rows"] if r["p"] == pl and not r["m"]), []).append(n)
+    pair_sums = [sum(sorted(v)[:2]) for v in by_sample.values() if len(v) >= 2] or [2]
+    return dict(min_size=rng.choice([0, 2, 4, 12] + [rng.choice(pair_sums) + d for d in (-1, 0, 0, 0, 1, 2)]),
+                n_iter=rng.choice([0, 1, 1, 2, 3, -1]),
+                size=rng.choice([0, 2, 3, -1, 50] + [rng.choice(szs) + d for d in (-1, 0, 0, 0, 1)]),
+                min_plates=rng.choice([0, 1, 2, 2, 3]))
+
+
 def features(desc, res):
     sd = desc["screen"]
     f = [desc["kind"] + (":" + desc["cls"] if "cls" in desc else "")]
